@@ -85,7 +85,7 @@ pub fn child(name: &str, args: &[String]) -> Option<i32> {
         "c16one" => c16::child_one(args),
         "c18" => c18::child(args),
         "c15reload" => c15::child_reload(args),
-        "c05bg" => c05::child_bg(),
+        "c05bg" => c05::child_bg(args),
         "c07bg" => c07::child_bg(),
         "c19rel" => c19::child_rel(args),
         "c09zone" => c09::child_zone(),
